@@ -91,6 +91,11 @@ def do_replay(engine, prop, path, as_json):
         spec = json.load(fobj)
     observed = spec.pop("observed", None)
     recorded_fp = spec.pop("fingerprint", None)
+    pinned = spec.pop("pythonhashseed", None)
+    if pinned is not None and os.environ.get("PYTHONHASHSEED") != str(pinned) and not os.environ.get("VERIF_REPLAY_KEEP_HASHSEED"):
+        # one hash seed is one repeatable execution: replay under the hash seed of the recorded run
+        os.environ["PYTHONHASHSEED"] = str(pinned)
+        os.execv(sys.executable, [sys.executable] + sys.argv)
     res = engine.execute(spec)
     viols = res.get("violations", [])
     report = {
@@ -142,6 +147,7 @@ def run_check(prop, tier, seed):
             spec = json.load(fobj)
         spec.pop("observed", None)
         spec.pop("fingerprint", None)
+        spec.pop("pythonhashseed", None)
         res = engine.execute(spec)
         sigs = [v["signature"] for v in res.get("violations", [])]
         if entry["status"] == "known":
